@@ -117,6 +117,7 @@ TYPE_EXPRS = [
     "ty.List[ty.List[int]]", "ty.Sequence[int]", "ty.Set[int]", "ty.FrozenSet[str]", "Path",
 ]  # fmt: skip
 PEP585_EXPRS = ["list[int]", "list[str]", "dict[str, int]", "dict[int, int]", "tuple[int, str]", "set[int]"]
+TYPE_EXPRS = TYPE_EXPRS + PEP585_EXPRS  # builtin generic aliases are hashed by origin and arguments since fix 4172742a (D65)
 TYPE_NS = {"ty": ty, "Path": Path}
 
 
@@ -360,7 +361,7 @@ class Caser:
                 "shape": repr(tuple(int(n) for n in o.shape)),
                 "hex": o.tobytes(order="C").hex(),
             }
-        if isinstance(o, (type, ty._GenericAlias, ty._SpecialForm, types.UnionType)):
+        if isinstance(o, (type, ty._GenericAlias, ty._SpecialForm, types.UnionType, types.GenericAlias)):
             return self.type_case(o)
         if id(o) in self.stack:
             return {"t": "ref", "id": self.oid(o)}
@@ -671,7 +672,7 @@ def canon(s, env=None, stack=()):
     if k == "npscalar":
         return ["npscalar", s["dtype"], s["hex"]]
     if k == "type":
-        return ["type", s["v"]]
+        return ["type", type_key(eval(s["v"], dict(TYPE_NS)))]
     if k == "func":
         # content of a function for C08 = parameters and body; name, annotations, closure cells and globals are not
         # part of it (closures are C06's subject)
@@ -686,6 +687,17 @@ def canon(s, env=None, stack=()):
             return ["backref", len(stack) - stack.index(s["name"])]
         return canon(env[s["name"]], env, stack)
     raise ValueError(k)
+
+
+def type_key(t):
+    """structural identity of a type expression: origin and arguments (typing.List[int] and list[int] are the same type;
+    int | str (types.UnionType) and typing.Union[int, str] are kept apart: different origins)"""
+    origin, args = ty.get_origin(t), ty.get_args(t)
+    if origin and args:
+        return [type_key(origin), [[type_key(y) for y in x] if isinstance(x, list) else type_key(x) for x in args]]
+    if t is Ellipsis:
+        return "..."
+    return f"{getattr(t, '__module__', '')}.{getattr(t, '__qualname__', None) or getattr(t, '_name', None) or repr(t)}"
 
 
 def canon_key(s) -> str:
@@ -722,31 +734,24 @@ _ORDERABLE = {"int": "num", "bool": "num", "float": "num", "str": "str", "bytes"
 
 
 def unordered_elements(s) -> str | None:
-    """D6 match rule: some set/frozenset or dict whose elements / keys Python's `<` does not order totally:
-    'partial' = at least two set-valued elements (proper subset is only a partial order: the result depends on the
-    iteration order, hence on PYTHONHASHSEED); 'typeerror' = elements of classes that `<` does not compare."""
-    worst = None
+    """D68 match rule: some dict whose keys Python's `<` does not compare ('typeerror': keys of mutually unorderable
+    classes, e.g. int next to str -> sorted(mapping) raises TypeError).  Sets and frozensets are ordered by the digests of
+    their elements since fix 847ae56e (D6) and never matter here."""
     for n in walk(s):
-        if n["k"] in ("set", "frozenset"):
-            els = n["xs"]
-        elif n["k"] == "dict":
-            els = [kv[0] for kv in n["items"]]
-        else:
+        if n["k"] != "dict":
             continue
+        els = [kv[0] for kv in n["items"]]
         distinct = {canon_key(e): e for e in els}
         if len(distinct) < 2:
             continue
         kinds = {_ORDERABLE.get(e["k"], e["k"]) for e in distinct.values()}
-        if kinds <= {"set", "frozenset"}:
-            worst = worst or "partial"
-        elif len(kinds) > 1 or not kinds <= {"num", "str", "bytes", "tuple"}:
+        if len(kinds) > 1 or not kinds <= {"num", "str", "bytes", "tuple"}:
             return "typeerror"
-        elif kinds == {"tuple"}:
-            # tuples compare element-wise: mixed element classes at the first differing index raise
+        if kinds == {"tuple"}:
             firsts = {_ORDERABLE.get(e["xs"][0]["k"], e["xs"][0]["k"]) if e["xs"] else "empty" for e in distinct.values()}
             if len(firsts) > 1 or not firsts <= {"num", "str", "bytes"}:
                 return "typeerror"
-    return worst
+    return None
 
 
 # --------------------------------------------------------------------------------------------------------------
@@ -873,12 +878,15 @@ def gen_value(rng, depth: int, names: list | None = None, allow=None):
     if kind in ("list", "tuple"):
         return {"k": kind, "xs": [gen_value(rng, depth - 1, names) for _ in range(w)]}
     if kind in ("set", "frozenset"):
-        kk = rng.choice(["str", "int", "bytes", "float", "tuple", "frozenset"])
+        kk = rng.choice(["str", "int", "bytes", "float", "tuple", "frozenset", "mixed"])
         if kk == "tuple":
             ek = rng.choice(["str", "int"])
             xs = [{"k": "tuple", "xs": [gen_key(rng, ek) for _ in range(rng.randint(1, 2))]} for _ in range(w)]
-        elif kk == "frozenset":  # totally ordered only if it is a chain; a single element is always fine
-            xs = [{"k": "frozenset", "xs": [gen_key(rng, "str") for _ in range(rng.randint(0, 2))]}]
+        elif kk == "frozenset":  # sets of sets (incomparable ones included): ordered by digest since fix 847ae56e
+            xs = [{"k": "frozenset", "xs": [gen_key(rng, rng.choice(["str", "int"])) for _ in range(rng.randint(0, 2))]} for _ in range(w)]
+        elif kk == "mixed":  # elements that Python's < cannot compare
+            xs = [gen_scalar(rng) for _ in range(w)]
+            xs = [x for x in xs if not (x["k"] == "float" and x["bits"] in (_bits(float("nan")),))]
         else:
             xs = [gen_key(rng, kk) for _ in range(w)]
         return {"k": kind, "xs": xs}
